@@ -1,6 +1,6 @@
 //! amh — the implementation-side harness.
 //!
-//! `amh <engine> --seed S --cases N --tier quick|thorough --out DIR [--replay FILE]`
+//! `amh <engine> --seed S --cases N --tier quick|thorough --out DIR [--replay FILE] [--first K]` (generated cases get the indices K, K+1, …)
 //!
 //! For every case the engine *generates* replayable input lines (gen.txt), *executes* them on the
 //! real crate (linked from /repo's working tree, hooks on), writes the operation lines for the Lean
@@ -65,6 +65,7 @@ fn main() {
     let mut tier = Tier::Quick;
     let mut out = PathBuf::from(".");
     let mut replay: Vec<PathBuf> = vec![];
+    let mut first: usize = 0;
     let mut i = 2;
     while i < args.len() {
         match args[i].as_str() {
@@ -73,6 +74,7 @@ fn main() {
             "--tier" => { tier = if args[i + 1] == "thorough" { Tier::Thorough } else { Tier::Quick }; i += 1 }
             "--out" => { out = PathBuf::from(&args[i + 1]); i += 1 }
             "--replay" => { replay.push(PathBuf::from(&args[i + 1])); i += 1 }
+            "--first" => { first = args[i + 1].parse().expect("first"); i += 1 }
             a => { eprintln!("unknown arg {a}"); std::process::exit(2) }
         }
         i += 1;
@@ -95,7 +97,7 @@ fn main() {
     let mut rng = Prng::new(seed ^ fxhash(engine_name.as_bytes()));
     for k in 0..cases {
         let mut crng = rng.fork();
-        let lines = eng.gen_case(&mut crng, tier, k);
+        let lines = eng.gen_case(&mut crng, tier, k + first);
         run.exec_case(&mut *eng, idx, lines, None);
         idx += 1;
     }
